@@ -82,6 +82,7 @@ class PipelineResult:
         self.stage = None
         self.parsed = None
         self.scores = None
+        self.raw_scores = None
         self.descs = None
         self.models = None
         self.files = {}
@@ -150,6 +151,7 @@ def run_pipeline(tables, cfg, workdir, name, fmt="pin", row_group=None, sched_de
                 ensemble=cfg.get("ensemble", False),
             )
             res.models = list(models)
+            res.raw_scores = list(scores)
             res.scores = [np.asarray(s, dtype=float).reshape(-1) for s in scores]
             res.descs = list(descs)
             if stop_after == "brew" or not cfg.get("confidence"):
@@ -162,7 +164,9 @@ def run_pipeline(tables, cfg, workdir, name, fmt="pin", row_group=None, sched_de
             mokapot.assign_confidence(
                 psms=list(psms),
                 max_workers=cfg["max_workers"],
-                scores=[np.asarray(s, dtype=float).reshape(-1) for s in scores],
+                # C07 hands brew's return value to assign_confidence untouched, as the CLI does
+                scores=list(scores) if cfg.get("raw_conf_scores") else
+                [np.asarray(s, dtype=float).reshape(-1) for s in scores],
                 descs=list(descs),
                 eval_fdr=cfg["test_fdr"],
                 dest_dir=dest,
